@@ -105,9 +105,9 @@ def reviewed : List (String × String × String × String) := [
   ("storage/skiplist.rs", "insert_new_node", "vec_zeroed", "new_level+1"),          -- new_level < MAX_LEVEL = 32
   ("storage/commands/streams.rs", "handle_xadd", "with_capacity", "num_fields"),    -- (parts.len() - 3) / 2
   -- parser: capped by the bytes received (C20 reserve_bounded); windows inside the buffer (C20 consumed_bounded)
-  ("protocol/parser.rs", "parse_array", "with_capacity", "len.min(data.len())"),
-  ("protocol/parser.rs", "parse_map", "with_capacity", "len.min(data.len())"),
-  ("protocol/parser.rs", "parse_set", "with_capacity", "len.min(data.len())"),
+  ("protocol/parser.rs", "parse_array", "with_capacity", "len.min(data.len()"),   -- …).min(MAX_RESERVE): the inventory cuts the operand at the first `).`; C20 reserve_bounded(_by_constant)
+  ("protocol/parser.rs", "parse_map", "with_capacity", "len.min(data.len()"),   -- …).min(MAX_RESERVE): the inventory cuts the operand at the first `).`; C20 reserve_bounded(_by_constant)
+  ("protocol/parser.rs", "parse_set", "with_capacity", "len.min(data.len()"),   -- …).min(MAX_RESERVE): the inventory cuts the operand at the first `).`; C20 reserve_bounded(_by_constant)
   ("protocol/parser.rs", "parse", "range_index", "self.position..self.position+4"),  -- guarded by position + 4 <= len
   ("protocol/parser.rs", "parse_bulk_string", "range_index", "header_consumed..header_consumed+len"),  -- after data.len() >= total_needed
   ("protocol/parser.rs", "parse_line", "range_index", "skip_prefix..i"),             -- i < data.len() - 1
